@@ -408,3 +408,42 @@ Proof. split; reflexivity. Qed.
 
 Print Assumptions C17_any_rt.
 Print Assumptions C17_hover_contents_rt.
+
+(* ================================================================================================
+   Last wave: the remaining bodies, and the closing theorem
+   ================================================================================================ *)
+(* Text(str) is the text-only component *)
+Theorem C17_text_skeleton : forall s, text_run (snd chat_Text) s = Some (text_msg s).
+Proof. exact (fun s => proj1 (text_is_skel s)). Qed.
+(* JsonMessage.WriteTo / ReadFrom: pk.String of the JSON text.  For ANY text layer and string codec that round-trip
+   (encoding/json is trusted; pk.String is property C06's subject), the interpretation of the translated WriteTo
+   writes the string of the text of to_json m, and the interpretation of the translated ReadFrom gives the
+   component back and leaves the following bytes *)
+Theorem C17_json_wire_skeleton :
+  forall (text_of : json -> list N) (parse : list N -> option json)
+         (str_write : list N -> list N) (str_read : list N -> option (list N * list N)),
+  (forall j, parse (text_of j) = Some j) ->
+  (forall s rest, str_read (str_write s ++ rest) = Some (s, rest)) ->
+  forall m rest,
+  jw_run text_of str_write (snd chat_JsonMessage_WriteTo) m = Some (str_write (text_of (to_json m)))
+  /\ jr_run parse str_read (snd chat_JsonMessage_ReadFrom) (str_write (text_of (to_json m)) ++ rest)
+     = Some (norm m, rest).
+Proof.
+  intros text_of parse str_write str_read H1 H2 m rest. split.
+  - exact (json_write_is_skel text_of str_write m).
+  - exact (json_wire_rt text_of parse str_write str_read H1 H2 m rest _ (json_write_is_skel text_of str_write m)).
+Qed.
+(* every function of chat/message.go, nbtmessage.go, jsonmessage.go and decoration.go (the list is regenerated from
+   the source on every run) is one of five named helpers outside the property's text (Append, SetColor,
+   TranslateMsg, SetLanguage, Decorate) or is, in source order, the name of an entry of `covered`, whose entries
+   carry the PROOF of the function's interpretation lemma: a function added without a lemma breaks this *)
+Theorem C17_every_body_interpreted :
+  filter (fun n => negb (mem_str n helpers)) chat_all_funcs = map c_name covered
+  /\ forallb (fun h => mem_str h chat_all_funcs) helpers = true.
+Proof. exact every_body_interpreted. Qed.
+Example C17_ex_covered : List.length covered = 18%nat /\ List.length chat_all_funcs = 23%nat /\ Forall (fun c => c_stmt c) covered.
+Proof. split; [reflexivity|split; [reflexivity|]]. apply Forall_forall. intros c _. exact (c_proof c). Qed.
+
+Print Assumptions C17_text_skeleton.
+Print Assumptions C17_json_wire_skeleton.
+Print Assumptions C17_every_body_interpreted.
